@@ -345,6 +345,33 @@ def unit_conversions(ctx):
                 ctx.check(got.shape == exp.shape and bool(np.all(np.abs(got - exp) <= 5e-3)), "C07.d_snr_metric", bcell, {"complex": cplx, "shape": list(shape)}, got.tolist(), exp.tolist(),
                           "SignalToNoiseRatio on a batched input is not 10log10(Px/Pn) of each batch element", "c07:replay_conversions")
                 ctx.nontrivial("tools_batched", cplx, shape)
+    # add_noise_for_snr with its 'dim' argument: the noise of every slice is calibrated to THAT slice's power (same-seed relation,
+    # deterministic): noise == randn(seed) * sqrt(P_slice / 10^(snr/10)); rows and columns get different powers
+    for cplx in (False, True):
+        base = gen_signal((6, 50), 1.0, cplx, rng)
+        g = torch.from_numpy((10.0 ** rng.uniform(-1.5, 1.5, size=(6, 1)) * 10.0 ** rng.uniform(-1.0, 1.0, size=(1, 50))).astype(np.float32))
+        sig = base * g
+        for dim in (None, 0, 1, -1, (0,), (1,), (0, 1)):
+            for snr in (-20.0, 0.0, 13.0, 40.0):
+                dcell = {**cell, "tool": "add_noise_for_snr", "dim": str(dim)}
+                dcase = {"complex": cplx, "dim": dim if not isinstance(dim, tuple) else list(dim), "snr_db": snr}
+                torch.manual_seed(4321)
+                ok, res = ctx.call(lambda: S.add_noise_for_snr(sig, snr, dim=dim), "C07.e_add_noise_raises", dcell, dcase, checker="c07:replay_conversions")
+                if not ok:
+                    continue
+                noisy, nz = res
+                P = (sig.abs() ** 2).to(torch.float64).mean(dim=dim, keepdim=True) if dim is not None else (sig.abs() ** 2).to(torch.float64).mean().reshape(1, 1)
+                std = torch.sqrt(P / 10 ** (snr / 10)).to(torch.float32)
+                torch.manual_seed(4321)
+                if cplx:
+                    exp = torch.complex(torch.randn_like(sig.real) * (std / np.sqrt(2.0)), torch.randn_like(sig.imag) * (std / np.sqrt(2.0)))
+                else:
+                    exp = torch.randn_like(sig) * std
+                ctx.ev()
+                e = float((nz - exp).abs().max() / exp.abs().max())
+                ctx.check(e <= 1e-4 and bool(torch.equal(noisy, sig + nz)), "C07.e_add_noise_for_snr_dim", dcell, dcase, {"rel_err": e}, "noise = randn x sqrt(P_slice / snr)",
+                          "add_noise_for_snr does not calibrate the noise to the power of each slice selected by 'dim'", "c07:replay_conversions")
+                ctx.nontrivial("add_noise_dim", cplx, str(dim), snr)
     ctx.sample({"grid_points": 2001, "tools": ["calculate_snr", "SignalToNoiseRatio", "StandardMetrics.signal_to_noise_ratio"]})
 
 
